@@ -395,6 +395,9 @@ class Ctx:
         m = re.search(r"Error: Invariant (\S+) is violated", res.out)
         if m:
             res.violated = m.group(1)
+        m = re.search(r"The invariant of (\S+) is equal to FALSE", res.out)
+        if m and not res.violated:
+            res.violated = m.group(1)
         m = re.search(r"Error: Postcondition (\S+)", res.out)
         if m and not res.violated:
             res.violated = m.group(1)
